@@ -6,9 +6,12 @@ from .common import *
 
 
 # ----------------------------------------------------------------------------- fixed models
-def _models(torch):
+def _models(torch, gumbel=False):
     import torch.nn as nn
-    from plinio.methods.supernet import SuperNetModule
+    from plinio.methods.supernet import SuperNetModule as _SNM
+
+    def SuperNetModule(branches):      # hard Gumbel sampling is an option of the module's constructor
+        return _SNM(branches, gumbel_softmax=gumbel, hard_softmax=gumbel)
 
     class M0(nn.Module):          # conv - conv - gap - linear
         def __init__(s, c1=8, c2=4):
@@ -46,6 +49,18 @@ def _models(torch):
 
         def forward(s, x):
             return s.l(s.b(s.b(x)))
+    class M2(nn.Module):          # residual network: the convolution c1 of the residual branch may be pruned completely
+        def __init__(s):
+            super().__init__()
+            s.c0 = nn.Conv2d(3, 8, 3, padding=1); s.c1 = nn.Conv2d(8, 8, 3, padding=1); s.c2 = nn.Conv2d(8, 6, 3, padding=1)
+            s.fc = nn.Linear(6 * 8 * 8, 3)
+
+        def forward(s, x):
+            x = torch.relu(s.c0(x))
+            x = x + torch.relu(s.c1(x))
+            x = torch.relu(s.c2(x))
+            return s.fc(torch.flatten(x, 1))
+
     class S2(nn.Module):          # Linear layers fed with a 3-D (N, T, F) tensor: a 3-branch module + a fixed head
         def __init__(s):
             super().__init__()
@@ -54,7 +69,7 @@ def _models(torch):
 
         def forward(s, x):
             return s.f(torch.relu(s.b(x)))
-    return {'M0': M0, 'M1': M1, 'S0': S0, 'S1': S1, 'S2': S2}
+    return {'M0': M0, 'M1': M1, 'M2': M2, 'S0': S0, 'S1': S1, 'S2': S2}
 
 
 def _in_shape(mname):
@@ -90,7 +105,7 @@ def _common_oracles(torch, o, p, which, c, get, xs, alpha_named, all_nas, tag):
     return S
 
 
-def _raise_oracle(torch, o, p, which, S, get, xs, coeffs, tag):
+def _raise_oracle(torch, o, p, which, S, get, xs, coeffs, tag, strict_sign=True):
     """every coefficient whose increase raises the metric has a (positive) non-zero gradient.  "raises" is taken
     as a slope: the cost grows strictly over the steps +1/256, +1/16, +1/2, +1 -- a single jump of a rounded quantity
     (ceil of a fractional channel count) or the far side of a near-tie of the ODiMO soft-max reduction is not a slope; the straight-through estimators differentiate a surrogate"""
@@ -110,6 +125,11 @@ def _raise_oracle(torch, o, p, which, S, get, xs, coeffs, tag):
                 if not cs[-1] > cs[-2] * tol:
                     break
             at(q, i, old)
+            if len(cs) == 5 and cs[-1] > cs[-2] * tol and strict_sign is False and gl is not None and gl[i] < 0:
+                # the property asks for a NON-ZERO gradient; with a 0-bit precision the branch costs depend on the coefficients
+                # (MPS layers read the producer's effective channels detached), so the sign is outside the theorem's premise
+                o.setdefault('sign_opposed', []).append((tag, n, i))
+                continue
             if len(cs) == 5 and cs[-1] > cs[-2] * tol and not (gl is not None and gl[i] > 0):
                 o['fails'].append(('no-gradient-for-coefficient-that-raises-cost:' + tag, {'param': n, 'index': i, 'cost_at_+0,+1/256,+1/16,+1/2,+1': cs, 'grad': None if gl is None else gl[i]}))
     p(*xs)       # resample with the original coefficients
@@ -342,6 +362,101 @@ def sn_case(torch, seed, mname, full_cost):
     return o
 
 
+def sn_gumbel_case(torch, seed, mname, full_cost):
+    """SuperNet with gumbel_softmax=True + hard_softmax=True in training mode: after every forward the coefficients are
+    one-hot and carry the gradient of the soft sample (straight-through).  Oracle per draw and metric: cost finite >= 0
+    and == sum_i theta_i * cost_i (+ fixed part); d cost / d alpha finite and equal to the straight-through reference
+    d/d alpha of sum_i theta_i * cost_i (theta = the sampled tensor, cost_i from the cost functions directly);
+    d cost / d theta_i == cost_i; no gradient to the weights"""
+    from plinio.methods import SuperNet
+    from plinio.methods.supernet.nn.combiner import SuperNetCombiner
+    from plinio.graph.inspection import shapes_dict
+    rng = random.Random(seed)
+    o = {'method': 'SuperNet', 'kind': 'sng', 'seed': seed, 'model': mname, 'full_cost': full_cost, 'fails': [], 'specs': {}, 'mix': [], 'drawn': {}}
+    stage = 'build'
+    try:
+        specs = _sn_specs()
+        names = list(specs)
+        shp = _in_shape(mname)
+        torch.manual_seed(seed)
+        M = _models(torch, gumbel=True)[mname]
+        p = SuperNet(M(), input_shape=shp, cost=dict(specs), full_cost=full_cost)
+        combs = [(n, mod) for n, mod in p.named_modules() if isinstance(mod, SuperNetCombiner)]
+        o['alpha'] = {}
+        for n, mod in combs:
+            v = [rng.randint(-8, 8) / 8.0 for _ in range(mod.alpha.numel())]
+            o['alpha'][n] = v
+            with torch.no_grad():
+                mod.alpha.copy_(torch.tensor(v))
+        temp = rng.choice([1.0, 0.5, 2.0])
+        p.update_softmax_options(temperature=temp)
+        o['temperature'] = temp
+        p.train()
+        netw = list(p.named_net_parameters())
+        for step in range(10):
+            stage = 'forward'
+            torch.manual_seed(seed * 977 + step)
+            p(torch.randn((2,) + shp))
+            for n, mod in combs:
+                th = [float(v) for v in mod.theta_alpha.detach()]
+                if sorted(th) != [0.0] * (len(th) - 1) + [1.0]:
+                    o['fails'].append(('hard-gumbel-sample-not-one-hot', {'comb': n, 'theta': th}))
+                o['drawn'].setdefault(n, set()).add(th.index(max(th)))
+            for which in names:
+                stage = 'cost:' + which
+                tag = 'hard-gumbel:' + which
+                c = p.get_cost(which)
+                v = float(c)
+                if not _finite_nonneg(v):
+                    o['fails'].append(('cost-not-finite-or-negative:' + tag, v))
+                    continue
+                fmap = p._cost_fn_map[which]
+                target = p._unique_leaf_modules if specs[which].shared else p._leaf_modules
+                ref = torch.tensor(0.0, dtype=torch.float64)
+                for lname, node, layer in target:
+                    if isinstance(layer, SuperNetCombiner):
+                        bc = []
+                        for i in range(layer.n_branches):
+                            ci = 0.0
+                            for ln, nd, ly in layer._unique_leaf_modules[i]:
+                                vv = dict(vars(ly)); vv.update(shapes_dict(nd))
+                                ci += float(fmap[ln](vv))
+                            bc.append(ci)
+                        ref = ref + (layer.theta_alpha.double() * torch.tensor(bc, dtype=torch.float64)).sum()
+                        gth = torch.autograd.grad(c, layer.theta_alpha, retain_graph=True, allow_unused=True)[0] if c.requires_grad else None
+                        if step < 2:
+                            o['mix'].append({'spec': which, 'comb': '%s@%d' % (lname, step), 'theta': [float(x) for x in layer.theta_alpha.detach()], 'branch_cost': bc,
+                                             'dcost_dtheta': None if gth is None else [float(x) for x in gth], 'dcost_dalpha': None})
+                        gl = [0.0] * len(bc) if gth is None else [float(x) for x in gth]
+                        mult = sum(1 for (_, _, l2) in target if l2 is layer)
+                        if any(not close(g_, Fraction(x_) * mult, 2.0 ** -18) for g_, x_ in zip(gl, bc)):
+                            o['fails'].append(('dcost-dtheta-differs-from-branch-cost:' + tag, {'comb': lname, 'theta': [float(x) for x in layer.theta_alpha.detach()], 'dcost_dtheta': gl, 'branch_cost': bc, 'invocations': mult}))
+                    elif 'sn_branches' not in str(node.target) and full_cost:
+                        vv = dict(vars(layer)); vv.update(shapes_dict(node))
+                        ref = ref + float(fmap[lname](vv))
+                if not close(v, Fraction(float(ref)), 2.0 ** -18):
+                    o['fails'].append(('cost-differs-from-reference-value:' + tag, {'cost': v, 'sum_theta_i*cost_i': float(ref)}))
+                alphas = [mod.alpha for _, mod in combs]
+                g_impl = torch.autograd.grad(c, alphas, retain_graph=True, allow_unused=True) if c.requires_grad else [None] * len(alphas)
+                g_ref = torch.autograd.grad(ref, alphas, retain_graph=True, allow_unused=True) if ref.requires_grad else [None] * len(alphas)
+                for (n, mod), gi, gr in zip(combs, g_impl, g_ref):
+                    li = [0.0] * mod.alpha.numel() if gi is None else [float(x) for x in gi]
+                    lr = [0.0] * mod.alpha.numel() if gr is None else [float(x) for x in gr]
+                    sc = max([abs(x) for x in lr] + [1.0])
+                    if any(not math.isfinite(x) for x in li) or any(abs(a - b) > 2.0 ** -14 * sc for a, b in zip(li, lr)):
+                        o['fails'].append(('gradient-differs-from-straight-through-reference:' + tag, {'comb': n, 'theta': [float(x) for x in mod.theta_alpha.detach()], 'dcost_dalpha': li, 'reference': lr}))
+                gw = _grads(torch, c, netw)
+                if any(gl_ is not None and any(x != 0 for x in gl_) for gl_ in gw.values()):
+                    o['fails'].append(('gradient-reaches-network-weight:' + tag, None))
+                o['specs'].setdefault(which, {'value': v, 'const': 0.0})
+        o['drawn'] = {n: sorted(v) for n, v in o['drawn'].items()}
+        o['specs'] = {}        # values change with every draw: the per-draw comparisons above are the observations
+    except Exception as ex:
+        o['fails'].append(('exception:SuperNet-hard-gumbel:' + stage.split(':')[0], '%s: %s' % (type(ex).__name__, str(ex)[:300])))
+        o['trace'] = traceback.format_exc()[-1500:]
+    return o
+
+
 # ----------------------------------------------------------------------------- MPS
 def _mps_specs():
     from plinio.cost import params_bit, ops_bit, mpic_latency, ne16_latency
@@ -381,13 +496,69 @@ def _layer_matrix(layer, fn, shapes):
     return [float(v) for v in thin.detach()], [float(v) for v in thw.detach()], c
 
 
-def mps_case(torch, seed, mname, per_channel):
+def _prune_oracle(torch, o, p, specs, names, xs, mname, rng):
+    """per-channel search with the 0-bit precision: a growing number of output channels of one layer picks 0 bit -- ALL
+    of them for the convolution of a residual branch (M2.c1: the NAS removes the branch, legal thanks to the skip
+    connection) -- under soft sampling, hard_softmax=True and eval(): cost finite and >= 0, gradients finite, none to the
+    weights, and (specs whose per-precision cost is read from the layer once) the value equals
+    sum_layers sum_ij theta_in_i * mean_c(theta_w[j, c]) * cost_fn(layer at precisions i, j)"""
+    from plinio.methods.mps.nn import MPSConv2d, MPSLinear
+    from plinio.graph.inspection import shapes_dict
+    lname = 'c1' if mname == 'M2' else 'c'
+    layer = dict(p.seed.named_modules())[lname]
+    qa = layer.w_mps_quantizer.alpha
+    C = qa.shape[1]
+    saved = qa.detach().clone()
+    al = [(n, q) for n, q in p.named_nas_parameters() if n.endswith('alpha') and q.requires_grad]
+    counts = [0, rng.randint(1, C - 2), C - 1] + ([C] if mname == 'M2' else [])
+    for n_pruned in counts:
+        with torch.no_grad():
+            qa.copy_(saved)
+            qa[0, :n_pruned] = 5.0
+            qa[1:, :n_pruned] -= 1.0
+        for mode in ('soft', 'hard', 'eval'):
+            p.update_softmax_options(hard=(mode == 'hard'))
+            p.train(mode != 'eval')
+            p(*xs)
+            for which in names:
+                tag = '%s:%d-of-%d-channels-of-%s-at-0-bit:%s' % (mode, n_pruned, C, lname, which)
+                c = p.get_cost(which)
+                v = float(c)
+                if not _finite_nonneg(v):
+                    o['fails'].append(('cost-not-finite-or-negative:pruned:' + tag, v))
+                    continue
+                gn = _grads(torch, c, al)
+                for n, gl in gn.items():
+                    if gl is not None and not all(math.isfinite(x) for x in gl):
+                        o['fails'].append(('gradient-not-finite:pruned:' + tag, {'param': n, 'grad': gl[:8]}))
+                        break
+                gw = _grads(torch, c, list(p.named_net_parameters()))
+                if any(gl is not None and any(x != 0 for x in gl) for gl in gw.values()):
+                    o['fails'].append(('gradient-reaches-network-weight:pruned:' + tag, None))
+                if which in AFFINE_MPS:
+                    fmap = p._cost_fn_map[which]
+                    target = p._unique_leaf_modules if specs[which].shared else p._leaf_modules
+                    ref = 0.0
+                    for ln, node, ly in target:
+                        if isinstance(ly, (MPSConv2d, MPSLinear)):
+                            thin, thw, cm = _layer_matrix(ly, fmap[ln], shapes_dict(node))
+                            ref += sum(ti * tj * cij for ti, row in zip(thin, cm) for tj, cij in zip(thw, row))
+                    if not close(v, Fraction(ref), 2.0 ** -16):
+                        o['fails'].append(('cost-differs-from-reference-value:pruned:' + tag, {'cost': v, 'sum_theta_in*mean_theta_w*cost_fn': ref}))
+    with torch.no_grad():
+        qa.copy_(saved)
+    p.update_softmax_options(hard=False)
+    p.train()
+    p(*xs)
+
+
+def mps_case(torch, seed, mname, per_channel, zero=False):
     from plinio.methods import MPS
     from plinio.methods.mps import MPSType, get_default_qinfo
     from plinio.methods.mps.nn import MPSConv2d, MPSLinear
     from plinio.graph.inspection import shapes_dict
     rng = random.Random(seed)
-    o = {'method': 'MPS', 'seed': seed, 'model': mname, 'per_channel': per_channel, 'fails': [], 'specs': {}, 'mps': []}
+    o = {'method': 'MPS', 'kind': 'mps0' if zero else 'mps', 'seed': seed, 'model': mname, 'per_channel': per_channel, 'zero': zero, 'fails': [], 'specs': {}, 'mps': []}
     stage = 'build'
     try:
         specs = _mps_specs()
@@ -396,7 +567,7 @@ def mps_case(torch, seed, mname, per_channel):
         st = MPSType.PER_CHANNEL if per_channel else MPSType.PER_LAYER
         torch.manual_seed(seed)
         M = _models(torch)[mname]
-        qi = lambda: get_default_qinfo((2, 4, 8), (8,))
+        qi = lambda: get_default_qinfo((0, 2, 4, 8) if zero else (2, 4, 8), (8,))      # zero: the 0-bit precision = channel pruning
         p = MPS(M(), input_shape=(3, 8, 8), cost=dict(specs), w_search_type=st, qinfo=qi())
         ps = MPS(M(), input_shape=(3, 8, 8), cost=specs[single], w_search_type=st, qinfo=qi())
         al = lambda w: [(n, q) for n, q in w.named_nas_parameters() if n.endswith('alpha') and q.requires_grad]
@@ -427,6 +598,8 @@ def mps_case(torch, seed, mname, per_channel):
                             gth = gth.sum(dim=1)       # per channel: theta_w_j = mean_c theta[j, c]
                         qa = layer.w_mps_quantizer.alpha
                         ga = _alpha_grad(torch, c, qa)
+                        if zero:
+                            gth = ga = None     # the branch costs depend on the coefficients through out_features_eff: value only
                         o['mps'].append({'spec': which, 'layer': lname, 'thin': thin, 'thw': thw, 'c': cm, 'dcost_dthw': None if gth is None else [float(v) for v in gth],
                                          # alpha as a list of columns (one per channel; per-layer search: one column), d cost / d alpha likewise
                                          'alpha': [[float(v) for v in col] for col in (qa.detach().t() if qa.dim() == 2 else qa.detach().unsqueeze(0))],
@@ -435,7 +608,7 @@ def mps_case(torch, seed, mname, per_channel):
                         if any(not _finite_nonneg(v) for r in cm for v in r):
                             o['fails'].append(('branch-cost-negative:' + which, cm))
             stage = 'raise:' + which
-            _raise_oracle(torch, o, p, which, S, get, xs, coeffs, which)
+            _raise_oracle(torch, o, p, which, S, get, xs, coeffs, which, strict_sign=not zero)
             o['specs'][which] = S
         stage = 'independence'
         for which in names:
@@ -444,6 +617,9 @@ def mps_case(torch, seed, mname, per_channel):
         _observer_oracle(torch, o, p, {w: (lambda w=w: p.get_cost(w)) for w in names}, xs, al(p))
         stage = 'onehot'
         _onehot_oracle(torch, o, p, {w: (lambda w=w: p.get_cost(w)) for w in names}, xs, al(p), True)
+        if zero:
+            stage = 'prune'
+            _prune_oracle(torch, o, p, specs, names, xs, mname, rng)
         stage = 'input-example'
         _example_oracle(torch, o, rng, lambda ex: MPS(M(), input_example=ex, cost=dict(specs), w_search_type=st, qinfo=qi()), (3, 8, 8), p,
                         lambda w: {k: (lambda k=k: w.get_cost(k)) for k in names}, xs)
@@ -513,4 +689,6 @@ def odimo_case(torch, seed, mname, as_dict):
 def mix_worker(args):
     torch = setup_torch()
     kind = args[0]
-    return {'sn': sn_case, 'mps': mps_case, 'odimo': odimo_case}[kind](torch, *args[1:])
+    if kind == 'mps0':      # per-channel search with the 0-bit precision
+        return mps_case(torch, args[1], args[2], True, zero=True)
+    return {'sn': sn_case, 'sng': sn_gumbel_case, 'mps': mps_case, 'odimo': odimo_case}[kind](torch, *args[1:])
